@@ -450,3 +450,36 @@ Example C12_copy_fwd_ex :
   tl (map (fun r => (o_rc r, o_sp r, o_data r)) (fst (run tree_quirks os_any ex_st3 (OAddMmap 0 18446744073709551615 0 :: ex_fwd_ops)))) =
     map (fun r => (o_rc r, o_sp r, o_data r)) (fst (run tree_quirks os_any ex_st3 ex_fwd_ops)).
 Proof. split; [apply runok_b_ok; vm_compute; reflexivity |]. split; [apply runok_b_ok; vm_compute; reflexivity |]. split; vm_compute; reflexivity. Qed.
+
+(* (7) arguments that are no sizes, and read-only handles (round 7).
+   A negative size is refused by ensure_size, truncate and copy - the state is untouched (before: -1, the "dispose" argument of the
+   resize policies, made _exfile_ensure_size_lw truncate the file to 0; corpus/C12/14) *)
+Theorem C12_negative_size_refused : forall q ok st sz, sz < 0 ->
+  ensure_size_lw q ok st sz = (EXF_E_OOB, st) /\ truncate_lw ok st sz = (EXF_E_OOB, st) /\
+  (q_copy_ensures q = true -> forall off siz noff, sw 64 (noff + siz) = sz -> exfile_copy q ok st off siz noff = (EXF_E_OOB, st)).
+Proof.
+  intros q ok st sz H. assert (E : (sz <? 0) = true) by (apply Z.ltb_lt; exact H).
+  split; [unfold ensure_size_lw; rewrite E; reflexivity |]. split; [unfold truncate_lw; rewrite E; reflexivity |].
+  intros Hq off siz noff Hs. unfold exfile_copy. rewrite Hq, Hs. unfold ensure_size_lw. rewrite E. reflexivity.
+Qed.
+Print Assumptions C12_negative_size_refused.
+
+(* a write on a handle opened read-only transfers nothing and answers an error - IW_ERROR_READONLY when the arguments are in order -
+   whatever windows are registered (before: a range served by a window was memcpy'd into the PROT_READ mapping: SIGSEGV; corpus/C12/15) *)
+Theorem C12_readonly_write_refused : forall st off d,
+  snd (exfile_write_ro st off d) = 0 /\ fst (exfile_write_ro st off d) <> 0 /\
+  (0 <= off -> off + zlen d < 2 ^ 63 -> (maxoff st = 0 \/ off + zlen d <= maxoff st) -> fst (exfile_write_ro st off d) = EXF_E_READONLY).
+Proof.
+  intros st off d. unfold exfile_write_ro. cbv zeta.
+  destruct ((off <? 0) || (sw 64 (off + zlen d) <? 0)) eqn:E1; [split; [reflexivity |]; split; [discriminate |] |].
+  - intros H0 H1 _. exfalso. change (2 ^ 63) with 9223372036854775808 in H1. pose proof (zlen_nonneg d).
+    unfold sw in E1. change (2 ^ (64 - 1)) with 9223372036854775808 in E1. change (2 ^ 64) with 18446744073709551616 in E1.
+    rewrite Z.mod_small in E1 by Lia.lia.
+    destruct (Z.ltb_spec off 0); [Lia.lia |]. destruct (Z.ltb_spec (off + zlen d + 9223372036854775808 - 9223372036854775808) 0); [Lia.lia | discriminate E1].
+  - destruct (negb (maxoff st =? 0) && (uw 64 (off + zlen d) >? maxoff st)) eqn:E2; (split; [reflexivity |]; split; [discriminate |]); [| intros; reflexivity].
+    intros H0 H1 Hm. exfalso. change (2 ^ 63) with 9223372036854775808 in H1. pose proof (zlen_nonneg d).
+    unfold uw in E2. change (2 ^ 64) with 18446744073709551616 in E2. rewrite Z.mod_small in E2 by Lia.lia.
+    destruct (Z.eqb_spec (maxoff st) 0); [discriminate E2 |]. simpl in E2. apply Z.gtb_lt in E2. destruct Hm; Lia.lia.
+Qed.
+Print Assumptions C12_readonly_write_refused.
+
